@@ -36,7 +36,7 @@ func GetAVCProtectRanges(spsMap map[uint32]*avc.SPS, ppsMap map[uint32]*avc.PPS,
 	for pos < uint32(length-4) {
 		naluLength := binary.BigEndian.Uint32(sample[pos : pos+4])
 		pos += 4
-		if int(pos+naluLength) > len(sample) {
+		if uint64(pos)+uint64(naluLength) > uint64(len(sample)) { // No uint32 wrap-around
 			return nil, fmt.Errorf("NALU length fields are bad")
 		}
 		naluType := avc.GetNaluType(sample[pos])
@@ -59,6 +59,9 @@ func GetAVCProtectRanges(spsMap map[uint32]*avc.SPS, ppsMap map[uint32]*avc.PPS,
 					return nil, err
 				}
 				clearHeadSize := uint32(sh.Size)
+				if clearHeadSize > naluLength {
+					return nil, fmt.Errorf("slice header size %d is bigger than NALU length %d", clearHeadSize, naluLength)
+				}
 				clearEnd = pos + clearHeadSize
 				bytesToProtect = naluLength - clearHeadSize
 			default:
@@ -92,7 +95,7 @@ func GetHEVCProtectRanges(spsMap map[uint32]*hevc.SPS, ppsMap map[uint32]*hevc.P
 	for pos < uint32(length-4) {
 		naluLength := binary.BigEndian.Uint32(sample[pos : pos+4])
 		pos += 4
-		if int(pos+naluLength) > len(sample) {
+		if uint64(pos)+uint64(naluLength) > uint64(len(sample)) { // No uint32 wrap-around
 			return nil, fmt.Errorf("NALU length fields are bad")
 		}
 		naluType := hevc.GetNaluType(sample[pos])
@@ -115,6 +118,9 @@ func GetHEVCProtectRanges(spsMap map[uint32]*hevc.SPS, ppsMap map[uint32]*hevc.P
 					return nil, err
 				}
 				clearHeadSize := uint32(sh.Size)
+				if clearHeadSize > naluLength {
+					return nil, fmt.Errorf("slice header size %d is bigger than NALU length %d", clearHeadSize, naluLength)
+				}
 				clearEnd = pos + clearHeadSize
 				bytesToProtect = naluLength - clearHeadSize
 			default:
